@@ -3,7 +3,9 @@ package main
 import (
 	"bytes"
 	"fmt"
+	"io"
 	"strings"
+	"testing/iotest"
 
 	"github.com/ChrisTrenkamp/xsel"
 	"golang.org/x/net/html"
@@ -68,6 +70,22 @@ func (f *failingReader) Read(p []byte) (int, error) {
 	return k, nil
 }
 
+// readerFor: the same bytes behind the kinds of io.Reader a caller may pass - everything at once, the last piece
+// together with io.EOF, half of what is asked for, one byte at a time
+func readerFor(data []byte, k int) io.Reader {
+	switch k % 4 {
+	case 1:
+		return iotest.DataErrReader(bytes.NewReader(data))
+	case 2:
+		return iotest.HalfReader(bytes.NewReader(data))
+	case 3:
+		if len(data) < 4000 {
+			return iotest.OneByteReader(bytes.NewReader(data))
+		}
+	}
+	return bytes.NewReader(data)
+}
+
 func readHtmlImpl(data []byte) (out string) {
 	defer func() {
 		if r := recover(); r != nil {
@@ -82,7 +100,7 @@ func readHtmlImpl(data []byte) (out string) {
 			return fmt.Sprintf("ACCEPTED an input whose reader failed (cursor nil: %v)", c == nil)
 		}
 	}
-	c, err := xsel.ReadHtml(bytes.NewReader(data))
+	c, err := xsel.ReadHtml(readerFor(data, htmlReads))
 	if err != nil {
 		return "E"
 	}
